@@ -9,7 +9,7 @@ pref = sys.argv[1] if len(sys.argv) > 1 and not sys.argv[1].startswith("--") els
 allp = "--all-props" in sys.argv
 man = json.load(open(V + "/MANIFEST.json"))
 claimed = [c["property_id"] for c in man["checks"]]
-res = {}
+res = json.load(open(V + "/seeded/last_run.json")) if os.path.exists(V + "/seeded/last_run.json") else {}
 for sd in sorted(os.listdir(V + "/seeded")):
     if not sd.startswith(pref) or not os.path.isdir(f"{V}/seeded/{sd}"): continue
     meta = json.load(open(f"{V}/seeded/{sd}/meta.json"))
